@@ -72,6 +72,8 @@ def slices(tier):
              [(0, 1, 6, 1, 1), (2, 0, 3, 1, 0), (0, 1, 4, 1, 1)], False),
             ("O4x4x1/dear-transfer", spaces.shape_pairs(4, 4, min_obj=4, min_sp=4), spaces.ordered_syntenies(1),
              [(0, 1, 6, 1, 1)], False),
+            # one family, every 4-leaf object on 3 species leaves at the default prices (transfers to a cousin species)
+            ("O4x3x1", spaces.shape_pairs(4, 3, min_obj=4, min_sp=3), spaces.ordered_syntenies(1), [core[0], core[2]], False),
         ]
     if tier == "quick":
         return quick
